@@ -9,8 +9,11 @@ THEOREMS = {"Artap.Props.C01": [
     "C01_marker_precedence", "C01_pareto_spec", "C01_range", "C01_irreflexive", "C01_antisymmetric",
     "C01_transitive", "C01_eps_agrees", "C01_eps_names_loser", "C01_eps_identical_rejects",
     "C01_float_order", "C01_float_transitive"]}
-from harness.core import FLOAT_AXIOMS
+from harness.core import FLOAT_AXIOMS, translated_specs
 AXIOMS_OK = FLOAT_AXIOMS
+# second tie to the code: the comparators' source is translated to Gallina on every run (tools/py2coq.py)
+# and the committed proofs GenProofs/DominanceEquiv.v show the result equal to Model/Dominance.v
+TRANSLATED = translated_specs("DominanceGen", "EpsDominanceGen")
 TRUSTED = [
     "Coq 8.16.1 kernel, vm_compute for model evaluation (no native_compute)",
     "FloatAxioms.ltb_spec / eqb_spec and the primitive float operations (standard library) for the float order instance",
